@@ -135,6 +135,13 @@ class OpGen:
             # what np.unique / array indexing of a label layer hands out
             op["np"] = self.rng.choice(["int64", "int64", "uint64", "int32", "uint32",
                                         "uint16", "array-edge"])
+        # argument forms: an edge as a list instead of a tuple; the caller's attribute dict
+        # re-used (and modified) by the caller after the call
+        if op.get("op") in ("add_edge", "delete_edge") and "np" not in op \
+                and self.rng.random() < 0.2:
+            op["edge_as"] = "list"
+        if op.get("op") in ("add_node", "update_attrs") and self.rng.random() < 0.25:
+            op["caller_reuses_dict"] = True
         return op
 
     def iou_key(self, tracks):
@@ -468,7 +475,13 @@ class OpGen:
             val = {"score": rng.choice([0.0, 0, round(rng.random(), 3), round(rng.random(), 3)]),
                    "note": rng.choice(["a", "b", ""]),
                    "flag": rng.random() < 0.5}[key]
-        return {"op": "update_attrs", "node": n, "attrs": {key: val}}
+        attrs = {key: val}
+        if rng.random() < 0.3:
+            # several keys in one call; a protected one (if any) comes last
+            k2 = rng.choice([x for x in ["score", "note", "flag"] if x != key])
+            first = {k2: {"score": round(rng.random(), 3), "note": "z", "flag": True}[k2]}
+            attrs = {**first, **attrs}
+        return {"op": "update_attrs", "node": n, "attrs": attrs}
 
     # -- paint
     def gen_paint(self, tracks):
@@ -536,8 +549,27 @@ class OpGen:
             "force": rng.random() < 0.5,
             "order": rng.choice(["asc", "desc"]),
             **({"noop_call": True} if label == 0 and rng.random() < 0.5 else {}),
+            **(self._second_frame(tracks, t) if label == 0 and rng.random() < 0.3 else {}),
             **({"via": "controller"} if rng.random() < 0.1 else {}),
         }
+
+    def _second_frame(self, tracks, t):
+        """An erase stroke may cover several frames (a brush that extends along time): a
+        second frame with cells that hit part or all of a node there."""
+        rng = self.rng
+        seg = tracks.segmentation
+        byt = nodes_by_time(tracks)
+        others = [x for x in byt if x != t]
+        if not others:
+            return {}
+        t2 = rng.choice(others)
+        n = rng.choice(byt[t2])
+        idx = [tuple(int(x) for x in c) for c in np.argwhere(seg[t2] == n)]
+        if not idx:
+            return {}
+        if rng.random() < 0.6 and len(idx) > 1:
+            idx = idx[: rng.randint(1, len(idx) - 1)]  # part of the node only
+        return {"also": [{"t": int(t2), "cells": [list(c) for c in idx]}]}
 
     @staticmethod
     def _rect(rng, shape):
@@ -610,6 +642,12 @@ def execute(tracks, op: dict) -> Outcome:
         signal.signal(signal.SIGALRM, old)
 
 
+def _caller_dict(tracks, which: str) -> dict:
+    """A dict object that the simulated caller owns and re-uses across calls."""
+    store = tracks.__dict__.setdefault("_fv_caller_dicts", {})
+    return store.setdefault(which, {})
+
+
 def _pixels_tuple(t, cells):
     arr = np.array(cells, dtype=np.int64).reshape(len(cells), -1)
     return (np.full(len(cells), t, dtype=np.int64), *[arr[:, d] for d in range(arr.shape[1])])
@@ -641,6 +679,11 @@ def named_of(tracks, op: dict) -> dict:
                 v = int(seg[(op["t"], *c)])
                 if v:
                     nodes.add(v)
+            for part in op.get("also", []):
+                for c in part["cells"]:
+                    v = int(seg[(part["t"], *c)])
+                    if v:
+                        nodes.add(v)
     return {"nodes": nodes, "tids": tids}
 
 
@@ -671,6 +714,17 @@ def execute_inner(tracks, op: dict) -> Outcome:
             warnings.simplefilter("ignore")
             if k == "add_node":
                 attrs: dict[str, Any] = {}
+                if op.get("caller_reuses_dict"):
+                    # one dict object owned by the caller: emptied of the keys the caller
+                    # itself manages and re-filled; whatever the library wrote into it
+                    # during an earlier call is still there (callers do not know about it)
+                    attrs = _caller_dict(tracks, "node")
+                    for key in (tracks.features.time_key, tracks.features.tracklet_key):
+                        attrs.pop(key, None)
+                    pk_ = tracks.features.position_key
+                    for key in (pk_ if isinstance(pk_, list) else [pk_]):
+                        attrs.pop(key, None)
+                    attrs.pop("area", None)
                 if op.get("omit") != "time":
                     attrs[tracks.features.time_key] = I(op["time"])
                 if op.get("omit") != "track_id":
@@ -694,16 +748,29 @@ def execute_inner(tracks, op: dict) -> Outcome:
                 a = UserDeleteNode(tracks, I(op["node"]))
             elif k == "add_edge":
                 e = np.array(op["edge"]) if npk == "array-edge" else \
+                    list(op["edge"]) if op.get("edge_as") == "list" else \
                     tuple(I(x) for x in op["edge"])
                 a = UserAddEdge(tracks, e, force=op.get("force", False))
             elif k == "delete_edge":
                 e = np.array(op["edge"]) if npk == "array-edge" else \
+                    list(op["edge"]) if op.get("edge_as") == "list" else \
                     tuple(I(x) for x in op["edge"])
                 a = UserDeleteEdge(tracks, e)
             elif k == "swap":
                 a = UserSwapPredecessors(tracks, tuple(I(x) for x in op["nodes"]))
             elif k == "update_attrs":
-                a = UserUpdateNodeAttrs(tracks, I(op["node"]), dict(op["attrs"]))
+                if op.get("caller_reuses_dict"):
+                    d_ = _caller_dict(tracks, "attrs")
+                    d_.clear()
+                    d_.update(op["attrs"])
+                    try:
+                        a = UserUpdateNodeAttrs(tracks, I(op["node"]), d_)
+                    finally:
+                        # ... and the caller goes on using its dict for something else
+                        d_.clear()
+                        d_.update({"note": "caller-changed-this-later", "score": -1.0})
+                else:
+                    a = UserUpdateNodeAttrs(tracks, I(op["node"]), dict(op["attrs"]))
             elif k == "prim_seg":
                 # primitive UpdateNodeSeg (all or part of a node's mask removed, or pixels
                 # added) immediately inverted: the session state is left where it was
@@ -734,12 +801,25 @@ def execute_inner(tracks, op: dict) -> Outcome:
                 groups: dict[int, list] = {}
                 for c, p in changed:
                     groups.setdefault(p, []).append(c)
+                extra_groups = []  # (frame, previous label, cells) of the other frames
+                if label == 0:
+                    for part in op.get("also", []):
+                        g2: dict[int, list] = {}
+                        for c in part["cells"]:
+                            pv = int(seg[(part["t"], *c)])
+                            if pv != 0:
+                                g2.setdefault(pv, []).append(tuple(c))
+                        extra_groups += [(part["t"], pv, cs) for pv, cs in g2.items()]
                 before = seg.copy()
                 if op.get("noop_call"):
                     # a stroke that changes nothing still reaches the action (label 0 over
                     # background): one empty step, one refresh
                     pass
                 idx = _pixels_tuple(t, [c for c, _ in changed])
+                if extra_groups:
+                    parts = [idx] + [_pixels_tuple(t2, cs) for t2, _, cs in extra_groups]
+                    idx = tuple(np.concatenate([p[d] for p in parts])
+                                for d in range(len(idx)))
                 seg[idx] = label  # the caller paints first
                 info["painted"] = seg.copy()
                 info["before"] = before
@@ -747,6 +827,10 @@ def execute_inner(tracks, op: dict) -> Outcome:
                 restore = (idx, before[idx].copy())
                 keys = sorted(groups, reverse=(op.get("order") == "desc"))
                 updated = [(_pixels_tuple(t, groups[p]), p) for p in keys]
+                updated += [(_pixels_tuple(t2, cs), pv) for t2, pv, cs in extra_groups]
+                if extra_groups:
+                    info["prev_labels"] = sorted(set(info["prev_labels"])
+                                                 | {pv for _, pv, _ in extra_groups})
                 if op.get("via") == "controller":
                     from funtracks.data_model.tracks_controller import TracksController
 
